@@ -1,3 +1,4 @@
+import AsmjitVerif.Model.X86Validate
 /-
 Executable model of `asmjit/x86/x86instapi.cpp`: `InstInternal::query_rw_info` (all categories, `rw_zero_extend_*`,
 `rw_handle_avx512`) and `InstInternal::query_features` (`InstInternal_reg_analysis`, `InstInternal_usesAvx512`), written after
@@ -127,14 +128,15 @@ structure Tables where
   instFlags : Array Nat
   /-- `CpuFeatures::X86` enumerator names → ids (from cpuinfo.h) -/
   feat : List (String × Nat)
-deriving Repr, DecidableEq, Inhabited
-def Tables.empty : Tables := ⟨#[], #[], #[], #[], #[], #[], #[], #[], []⟩
+  /-- `_inst_signature_table` / `_op_signature_table` as the validator model reads them (Gen/X86Sig.lean, C13's translator) -/
+  sig : AsmjitVerif.X86Validate.SigTables
+def Tables.empty : Tables := ⟨#[], #[], #[], #[], #[], #[], #[], #[], [], ⟨[], [], [], []⟩⟩
 
 /-! ### operands -/
 inductive Opnd
   | none
   | reg (rtype group size id : Nat)
-  | mem (size : Nat) (hasBase hasIndex : Bool) (baseType indexType indexId : Nat)
+  | mem (size : Nat) (hasBase hasIndex : Bool) (baseType indexType indexId : Nat) (baseId off : Nat)
   | imm (v : Nat)
 deriving Repr, DecidableEq, Inhabited
 
@@ -179,6 +181,7 @@ structure Inst where
   options : Nat
   /-- register type of the extra register (0 = none) -/
   extraType : Nat
+  extraId : Nat := 0
 deriving Repr, DecidableEq, Inhabited
 
 structure RWOut where
@@ -239,7 +242,7 @@ def genericOp (t : Tables) (rw : RWInfo) (nativeGp : Nat) (i : Nat) (src : Opnd)
       else if has d.flags fZExt then zeroExtendNonVec op group
       else op
     else op
-  | .mem _ hb hi _ _ _ =>
+  | .mem _ hb hi _ _ _ _ _ =>
     let op := if hb && !has op.flags fMemBaseRW then { op with flags := Nat.lor op.flags fMemBaseRead } else op
     if hi && !has op.flags fMemIndexRW then { op with flags := Nat.lor op.flags fMemIndexRead } else op
   | _ => op
@@ -252,11 +255,31 @@ def rmSizeFor (rm : RWInfoRm) (opSize rmMax : Nat) (cur : Nat) : Nat :=
   else if rm.category == rmEighth then (rmMax / 8) % 256
   else cur
 
+/-! ### the validator (Model/X86Validate.lean, C13) as `query_rw_info` uses it since fixes C12-6 / C12-7 -/
+namespace V
+open AsmjitVerif.X86Validate in
+def operand : Opnd → Operand
+  | .none => .none
+  | .reg t _ _ id => .reg t id
+  | .mem size hb hi bt it iid bid off => .mem size (if hb then bt else 0) (if hb then bid else 0) (if hi then it else 0) (if hi then iid else 0) 0 off 0 0
+  | .imm v => .imm v
+end V
+
+/-- `validate(mode, inst, operands, op_count, ValidationFlags::kNone) == Error::kOk` -/
+def validates (t : Tables) (mode64 : Bool) (inst : Inst) (ops : List Opnd) : Bool :=
+  AsmjitVerif.X86Validate.validate t.sig
+    { mode := if mode64 then 2 else 1, id := inst.id, options := inst.options,
+      extra := if inst.extraType == 0 then none else some (inst.extraType, inst.extraId) } (ops.map V.operand) == .ok
+
+/-- the memory operand `Mem(native rax-like register, 0, size)` both repairs materialise -/
+def nativeMem (mode64 : Bool) (id size : Nat) : Opnd := .mem (size % 256) true false (if mode64 then tGp64 else tGp32) 0 0 id 0
+
 def okOut (o : RWOut) : Except String RWOut := .ok o
 def invalid : Except String RWOut := .error "InvalidInstruction"
 
-/-- `InstInternal::query_rw_info(arch, inst, operands, op_count, out)` -/
-def queryRW (t : Tables) (mode64 : Bool) (inst : Inst) (ops : List Opnd) : Except String RWOut :=
+/-- `InstInternal::query_rw_info(arch, inst, operands, op_count, out)` on operands that are not a short form (everything after
+    the `rw_query_short_form` test) -/
+def queryRWFull (t : Tables) (mode64 : Bool) (inst : Inst) (ops : List Opnd) : Except String RWOut :=
   if inst.id == 0 || inst.id ≥ t.insts.size then invalid else
   let ii := t.insts.getD inst.id default
   let addl := t.addl.getD ii.addl default
@@ -292,7 +315,12 @@ def queryRW (t : Tables) (mode64 : Bool) (inst : Inst) (ops : List Opnd) : Excep
     let out :=
       if rmOps != 0 && !has inst.options oER then
         { out with ops := out.ops.zipIdx.map fun (o, i) =>
-            if Nat.testBit rmOps i then { o with flags := Nat.lor o.flags fRegM, rmSize := rmSizeFor rm (op i).rmSize rmMax o.rmSize } else o }
+            if Nat.testBit rmOps i then
+              let o' := { o with flags := Nat.lor o.flags fRegM, rmSize := rmSizeFor rm (op i).rmSize rmMax o.rmSize }
+              -- fixes/C12-7: the R/M information is per instruction id; keep it only if the form with this operand in memory exists
+              if validates t mode64 inst (ops.set i (nativeMem mode64 0 o'.rmSize)) then o'
+              else { o' with flags := clear o'.flags fRegM, rmSize := 0 }
+            else o }
       else out
     -- vpternlogd/q with a predicate that ignores the destination
     let out :=
@@ -470,6 +498,58 @@ def queryRW (t : Tables) (mode64 : Bool) (inst : Inst) (ops : List Opnd) : Excep
     else invalid
   else invalid
 
+
+/-- materialised implicit operand of a signature row (`rw_query_short_form`): the signature fixes the register -/
+def implicitOpnd (mode64 : Bool) (flags regMask : Nat) : Opnd :=
+  let id := ((List.range 8).find? fun b => Nat.testBit regMask b).getD 8
+  let hasF (f : Nat) : Bool := Nat.land flags f != 0
+  if hasF 0x1FFC0000 then nativeMem mode64 id (if hasF 0x800000 then 8 else if hasF 0x2000000 then 16 else if hasF 0x8000000 then 64 else 0)
+  else if hasF 0x20 then .reg tVec128 gVec 16 id
+  else if hasF 0x10 && mode64 then .reg tGp64 gGp 8 id
+  else if hasF 0x8 then .reg tGp32 gGp 4 id
+  else if hasF 0x4 then .reg tGp16 gGp 2 id
+  else if hasF 0x2 then .reg tGp8Hi gGp 1 id
+  else .reg tGp8Lo gGp 1 id
+
+/-- full operand list of a signature row from the explicit operands; `none` if their number does not fit -/
+def materialise (mode64 : Bool) : List (Nat × Nat) → List Opnd → List Opnd → Option (List Opnd × List Bool)
+  | [], [], acc => some (acc.reverse, [])
+  | [], _ :: _, _ => none
+  | (f, m) :: refs, ops, acc =>
+    if Nat.land f 0x80000000000000 != 0 then
+      (materialise mode64 refs ops (implicitOpnd mode64 f m :: acc)).map fun (l, e) => (l, false :: e)
+    else match ops with
+      | [] => none
+      | o :: rest => (materialise mode64 refs rest (o :: acc)).map fun (l, e) => (l, true :: e)
+
+/-- `rw_query_short_form` (fixes/C12-6): `none` = not a short form -/
+def shortForm (t : Tables) (mode64 : Bool) (inst : Inst) (ops : List Opnd) : Option (Except String RWOut) :=
+  match AsmjitVerif.X86Validate.resolve t.sig inst.id with
+  | none => none
+  | some R =>
+    let mode := if mode64 then 2 else 1
+    let n := ops.length
+    if R.rows.any (fun (c, sm, _, _) => Nat.land sm mode != 0 && c == n) then none else
+    let rec go : List (Nat × Nat × Nat × List (Nat × Nat)) → Option (Except String RWOut)
+      | [] => none
+      | (c, sm, ic, refs) :: rest =>
+        if Nat.land sm mode == 0 || ic == 0 || c - ic != n then go rest else
+        match materialise mode64 refs ops [] with
+        | none => go rest
+        | some (full, isExplicit) =>
+          if !validates t mode64 inst full then go rest else
+          match queryRWFull t mode64 inst full with
+          | .error e => some (.error e)
+          | .ok r => some (.ok { r with ops := ((r.ops.zip isExplicit).filter (·.2)).map (·.1) })
+    go R.rows
+
+/-- `InstInternal::query_rw_info(arch, inst, operands, op_count, out)` -/
+def queryRW (t : Tables) (mode64 : Bool) (inst : Inst) (ops : List Opnd) : Except String RWOut :=
+  if inst.id == 0 || inst.id ≥ t.insts.size then invalid else
+  match (if ops.length < 6 then shortForm t mode64 inst ops else none) with
+  | some r => r
+  | none => queryRWFull t mode64 inst ops
+
 /-! ### query_features -/
 
 structure RegAnalysis where
@@ -480,7 +560,7 @@ structure RegAnalysis where
 def regAnalysis (ops : List Opnd) : RegAnalysis :=
   ops.foldl (fun a o => match o with
     | .reg t g _ id => { typeMask := Nat.lor a.typeMask (2 ^ t), highVec := a.highVec || (g == gVec && id ≥ 16 && id < 32) }
-    | .mem _ hb hi bt it iid =>
+    | .mem _ hb hi bt it iid _ _ =>
       let m := if hb then Nat.lor a.typeMask (2 ^ bt) else a.typeMask
       if hi then { typeMask := Nat.lor m (2 ^ it), highVec := a.highVec || (iid ≥ 16 && iid < 32) } else { a with typeMask := m }
     | _ => a) ⟨0, false⟩
@@ -629,12 +709,13 @@ def parseOpnd (tok : String) : Option Opnd :=
   | ["i", v] => do some (.imm (← v.toNat?))
   | "m" :: size :: base :: index :: rest => do
     let size ← size.toNat?
-    if rest == ["abs"] then some (.mem (size % 256) false false 0 0 0) else
+    -- offsets / absolute addresses as harness/c12.cpp builds them
+    if rest == ["abs"] then some (.mem (size % 256) false false 0 0 0 0 0x1122334455667788) else
     let b := if base == "-" then some (0, 0) else shortReg? base
     let i := if index == "-" then some (0, 0) else shortReg? index
-    let (bt, _) ← b
+    let (bt, bid) ← b
     let (it, iid) ← i
-    some (.mem (size % 256) (base != "-") (index != "-") bt it iid)
+    some (.mem (size % 256) (base != "-") (index != "-") bt it iid bid (if base != "-" then 16 else 0x1000))
   | _ => none
 
 def optBits (s : String) : Option Nat :=
@@ -670,7 +751,8 @@ def queryLine (t : Tables) (ws : List String) : String :=
   | arch :: idTok :: opts :: extra :: opToks =>
     match (idTok.drop 1).toNat?, optBits opts, opToks.mapM parseOpnd with
     | some id, some o, some ops =>
-      let inst : Inst := { id := id, options := o, extraType := if extra == "-" then 0 else tMask }
+      let inst : Inst := { id := id, options := o, extraType := if extra == "-" then 0 else tMask,
+                           extraId := ((extra.drop 1).toNat?).getD 0 }
       let rwPart := match queryRW t (arch == "x64") inst ops with
         | .error e => s!"rw={e}"
         | .ok r =>
